@@ -82,7 +82,7 @@ def generic_iterparse(fp: IOType,
     try:
         for event, node in ElementTree.iterparse(fp, events):
             if not limit:
-                raise StopIteration
+                return  # the limit of parser events has been reached
             limit -= 1
 
             if event == 'end':
